@@ -1,6 +1,7 @@
 import UF.Compose2.MatchFull
 import UF.Props.C04
 import UF.Props.C03
+import UF.Props.C05Full
 /-
   C04 with the pattern PROVED (integration group I2): `NetworkRule.Match`, evaluated entirely in the
   model — the pattern oracle `Ext.pat` instantiated by `modelPat` (group A's regex model for `/regex/`
@@ -46,6 +47,33 @@ theorem c04_full_text (px : E.ParseExt) (t : Bytes) (id : Int) (r : NetRule) (q 
 theorem c04_full_regex (ext : Ext) (r : NetRule) (q : Request) (hwf : r.WellFormed) (hq : q.InDomain) :
     r.matches (withModelPat ext) q = specMatch (withModelPat ext) r q :=
   c04 (withModelPat ext) r q hwf hq
+
+/-- The pattern of a parsed rule is the normalised pattern of the text, so the pattern conjunct of
+    the reference is `ruleAccepts` of the pattern AS WRITTEN in the rule (`example.org/*` included). -/
+theorem c04_full_written (px : E.ParseExt) (t : Bytes) (id : Int) (r : NetRule) (q : Request)
+    (h : E.parseNetRule px t id = .ok r) :
+    ∃ pat opts wl, E.parseRuleText t = .ok (pat, opts, wl) ∧ r.whitelist = wl ∧
+      specPatternMask r q = MaskSpec.ruleAccepts pat (r.isEnabled Facts.OptionMatchCase) (specTarget r q) := by
+  obtain ⟨pat, opts, wl, hp, hpat, hwl, _⟩ := parseNetRule_pattern h
+  exact ⟨pat, opts, wl, hp, hwl, by unfold specPatternMask MaskSpec.ruleAccepts; rw [hpat]⟩
+
+/-- C03 + C04 + C05 + C12 composed, from the rule TEXT, with no oracle but `netip`/`publicsuffix`: a
+    mask rule that `NewNetworkRule` accepts matches a well-formed request of the domain iff every
+    modifier holds (set-membership reference) and the documented mask language of its pattern accepts
+    the target — the shortcut pre-check has disappeared from the statement. -/
+theorem c04_full_end_to_end (px : E.ParseExt) (t : Bytes) (id : Int) (r : NetRule) (q : Request)
+    (h : E.parseNetRule px t id = .ok r) (hq : q.InDomain)
+    (hd : MaskDomain r.pattern (specTarget r q))
+    (hlower : q.urlLower = toLower q.url)
+    (hhost : q.isHostnameRequest = true → hasSub q.url q.hostname = true) :
+    r.matches (withModelPat px.ext) q = specMatchNoShortcut px.ext r q := by
+  rw [C05.c05_text_full px t id r q h hd.notRegex hlower hhost]
+  have hwf := E.parseNetRule_wellFormed h
+  have hwf' : ({ r with shortcut := [] } : NetRule).WellFormed :=
+    ⟨hwf.permTags, hwf.restrTags, hwf.permHosts, hwf.restrHosts⟩
+  have := c04_full px.ext ({ r with shortcut := [] } : NetRule) q hwf' hq hd
+  rw [show (withModelPat px.ext) = { px.ext with pat := fun p mc u => (modelPat p mc u).getD false } from rfl, this]
+  exact specMatchFull_noShortcut px.ext r q
 
 /-- The full reference does not mention the pattern oracle at all. -/
 theorem c04_full_no_oracle (ext : Ext) (f : Bytes → Bool → Bytes → Bool) (r : NetRule) (q : Request) :
